@@ -361,10 +361,15 @@ def removed_rows(red):
     return [[red[i], red[i + 1] - red[i] - 1] for i in range(len(red) - 1)]
 
 
-def dyn_case(rng, fn, tier):
+def dyn_case(rng, fn, tier, n=None, family=None):
     big = tier == 'thorough'
-    n = rng.randint(6, 40 if big and rng.random() < 0.3 else 14)
-    if rng.random() < 0.55:
+    if n is None:
+        n = rng.randint(6, 40 if big and rng.random() < 0.3 else 14)
+        if big and rng.random() < 0.2:
+            n = rng.randint(3, 7)
+    if family is not None:
+        fam, pts = gen.curve(rng, n, family)
+    elif rng.random() < 0.55:
         fam, pts = gen.curve(rng, n, rng.choice(['grid', 'plateau', 'zigzag', 'collinear', 'elbow']))
         if not all(float(v).is_integer() for p in pts for v in p):
             pts = [[float(round(p[0])), float(round(p[1] * 4))] for p in pts]
@@ -460,6 +465,9 @@ def live_verdict(info):
     import numpy as np
     import builtins as bi
     r = info['ref']
+    pkg = info['module'].split('.')[0]
+    if r[0] in ('import', 'from') and r[1].split('.')[0] == pkg and PKG_IMPORT_ERROR[0]:
+        return None                                      # the package itself does not import: no live verdict on its own modules
     if r[0] == 'import':
         try:
             importlib.import_module(r[1])
@@ -551,6 +559,7 @@ class C20:
         self.world = None
         self.failing = []
         self.link_note = {}
+        self.want_warmup = False
 
     # ---------------------------------------------------------------- static part: the per-run theorem
     def waivers(self):
@@ -696,11 +705,26 @@ class C20:
                 cases.append({'kind': 'link', 'module': info['module'], 'scope': info['scope'], 'line': info['line'], 'ref': info['ref']})
         if PKG_IMPORT_ERROR[0]:
             return cases
+        self.want_warmup = True
         names = sorted(FUNCS)
         per = {'quick': 3, 'search': 2, 'thorough': 40}.get(tier, 3)
         for rep in range(per):
             for fn in names:
                 cases.append(dyn_case(rng, fn, tier))
+        # layout stress: BLAS / SIMD kernels change path with the operand's size and memory order (the np.dot defect D15 shows
+        # only for Fortran-ordered operands of 3 or 7 rows, in about 2% of random inputs), so the distance primitives and the
+        # simplifiers that slice 3-point sub-curves get many tiny random-double inputs
+        stress = {'quick': 130, 'search': 130, 'thorough': 1500}.get(tier, 130)
+        hot = ['linear_fit.shortest_distance_points', 'linear_fit.shortest_distance_points/inner', 'linear_fit.perpendicular_distance_points',
+               'rdp.order_triangle', 'rdp.order_area', 'knee_ranking.distances', 'evaluation.mae']
+        for k in range(stress):
+            for fn in hot[:2]:
+                cases.append(dyn_case(rng, fn, tier, n=rng.choice([3, 3, 3, 7, 11]), family='uniform'))
+            fn = hot[2 + k % (len(hot) - 2)]
+            cases.append(dyn_case(rng, fn, tier, n=rng.choice([3, 4, 5, 7]), family=rng.choice(['uniform', 'convex'])))
+        for k in range(stress // 3):
+            fn = ['rdp.rdp', 'rdp.rdp_fixed', 'rdp.grdp', 'rdp.mp_grdp'][k % 4]
+            cases.append(dyn_case(rng, fn, tier, n=rng.randint(5, 12), family='uniform'))
         return cases
 
     def is_pkg_call(self, i):
@@ -714,7 +738,7 @@ class C20:
         return k1 is not None and k1[0] == 'F'
 
     def warmup(self):
-        if PKG_IMPORT_ERROR[0]:
+        if PKG_IMPORT_ERROR[0] or not self.want_warmup:
             return
         # compile the numba specialisations (dtype x layout) once, before forking
         rng = random.Random(1)
@@ -737,8 +761,6 @@ class C20:
                         raise
                     except Exception:
                         pass
-                if 'cost' not in FUNCS[fn].__code__.co_consts and not fn.startswith('rdp.') and fn != 'multi_knee.multi_knee':
-                    break
 
     def on_timeout(self, c):
         c = dict(c)
